@@ -76,7 +76,8 @@ class GBSys:
             if r[0] == "done":
                 k, grp = r[1]
                 self.groups.append(grp)
-                return ("group", k.k if isinstance(k, Item) else 1 if k is None else k, 0)
+                # whatever else comes back as a key (it happens with a broken groupby) is an observation, not a crash
+                return ("group", k.k if isinstance(k, Item) else 1 if k is None else k if isinstance(k, int) else -1, 0)
         elif what == "close":
             if g > len(self.groups):
                 return ("nogroup", 0, 0)
